@@ -239,6 +239,21 @@ fn exercise(bytes: &[u8], c: &Case, st: &mut Stats, phase: &'static str) -> Resu
             ),
         ));
     }
+    // the other ways of consuming the iterator (each bounded by the item bound above)
+    let n_items = items.len();
+    run.op("iter_attributes positional/adaptor access", bytes, || {
+        for k in (0..=n_items.min(6)).chain(n_items.saturating_sub(2)..=n_items + 1) {
+            let mut it = msg.iter_attributes();
+            let _ = it.nth(k);
+            let _ = it.next();
+            let _ = msg.iter_attributes().skip(k).take(bound + 1).count();
+        }
+        let _ = msg.iter_attributes().take(bound + 1).step_by(2).count();
+        let _ = msg.iter_attributes().step_by(3).take(bound + 1).count();
+        let _ = msg.iter_attributes().size_hint();
+        let _ = msg.iter_attributes().count();
+        let _ = msg.iter_attributes().last();
+    })?;
     run.op("Display/Debug of Message", bytes, || format!("{} {:?}", msg, msg))?;
     let mut types: Vec<u16> = items.iter().map(|a| a.get_type().value()).collect();
     types.extend_from_slice(&[0x0006, 0x0008, 0x001C, 0x8028, 0x4321, 0xffff]);
